@@ -705,6 +705,17 @@ def fixed_scenarios(run: Run):
                 scen[f"inline-sequence-argument/{np.dtype(dt).name}{list(esh)}x{cnt}"] = (
                     {f"e{k}": v for k, v in enumerate(elems)}, {k: op.identity(v) for k, v in res.items()},
                     {f"e{k}": np.full(run_sh, k, dtype=dt) for k in range(cnt)})
+            # DEFAULT-VALUED inputs (a graph input that also has an initializer): the caller may feed another value, so nothing may be
+            # concluded from the default about shapes computed from it (Reshape / ConstantOfShape / Expand / Tile targets)
+            from spox._graph import arguments as _arguments
+            for how, fed in (("default", None), ("override-same-size", np.array([3, 2], np.int64)), ("override", np.array([6, 1], np.int64))):
+                xa, sh = _arguments(x=Tensor(np.float32, (None,)), shape=np.array([2, 3], np.int64))
+                outs_ = {"reshaped": op.reshape(xa, sh), "filled": op.constant_of_shape(sh, value=np.array([7], np.int64)),
+                         "expanded": op.expand(op.const(np.array([1.0], np.float32)), sh), "plus": op.add(sh, sh)}
+                feeds_ = {"x": np.arange(6, dtype=np.float32)}
+                if fed is not None:
+                    feeds_["shape"] = fed
+                scen[f"default-valued-input-feeds-a-shape/{how}"] = ({"x": xa, "shape": sh}, outs_, feeds_)
         for name, (ins, outs, feeds) in scen.items():
             try:
                 with warnings.catch_warnings():
